@@ -12,7 +12,8 @@
    C08_fuel_enough says the fuel is never the reason for an answer. *)
 From SV Require Import Base.Prelude Base.Bytes Model.FrameBase Model.FrameTypes Model.FrameResp
   Model.FrameCustom Model.FrameEnc Model.FrameChunk Model.FrameValues Proofs.FrameBase_proofs Proofs.FrameTop_proofs
-  Proofs.FrameCustom_proofs Proofs.FrameC08_proofs Proofs.FrameChunk_proofs Proofs.FrameValues_proofs.
+  Proofs.FrameCustom_proofs Proofs.FrameC08_proofs Proofs.FrameChunk_proofs Proofs.FrameValues_proofs
+  Proofs.FrameLocal_proofs.
 Open Scope N_scope.
 
 (* well-formed response decoded exactly, under every feature combination, whatever follows *)
@@ -109,6 +110,78 @@ Theorem C08_typed_cell_roundtrip : forall t v b,
   Cql.ser_value true (to_ctype t) v = Ok b ->
   typed_cell t (Some b) = Ok (Cql.CVal (Cql.pad (to_ctype t) v)) /\ typed_cell t None = Ok Cql.CNull.
 Proof. exact typed_cell_roundtrip. Qed.
+
+(* ---- deepening round 3 (proof only) ---------------------------------------------------------- *)
+(* a frame is decoded independently of what follows it: when the reader accepts a frame it has consumed
+   exactly 9 + length bytes, and the whole answer of [decode] (outcome AND cost) is the same whatever
+   stands behind those bytes *)
+Theorem C08_frame_local : forall decompress ft v2 cmp s h body rest,
+  fst (read_frame s) = Ok ((h, body), rest) ->
+  let n := (9 + N.to_nat (h_length h))%nat in
+  s = firstn n s ++ rest /\ lenN body = h_length h /\
+  forall tail, decode decompress ft v2 cmp (firstn n s ++ tail) = decode decompress ft v2 cmp s.
+Proof. exact decode_local. Qed.
+
+(* a connection's stream ([decode_stream k]: decode the first frame, go on behind it, k times): any
+   sequence of well-formed frames followed by anything decodes to exactly those frames, in order *)
+Theorem C08_stream : forall compress decompress,
+  (forall b, decompress (compress b) = Some b) ->
+  forall ft v2 cmp fs rest,
+  Forall (wf_frame compress ft v2 cmp) fs ->
+  decode_stream decompress ft v2 cmp (length fs) (flat_map (encode_frame compress ft) fs ++ rest) = map ODone fs.
+Proof. exact decode_stream_encoded. Qed.
+
+(* the two body decoders on EVERY byte list: never "out of fuel"; on success the consumed prefix is
+   determined exactly, the answer does not depend on what follows it, every strict prefix of it is refused *)
+Theorem C08_body_local : forall ft v2 flags op,
+  (forall b x rest, run (deser_extensions flags) b = Ok (x, rest) ->
+     exists c, b = c ++ rest /\ (forall rest', run (deser_extensions flags) (c ++ rest') = Ok (x, rest')) /\
+               (forall q, sprefix q c -> exists e, run (deser_extensions flags) q = Err e)) /\
+  (forall b r rest, run (deser_response parse_custom ft v2 op) b = Ok (r, rest) ->
+     exists c, b = c ++ rest /\ (forall rest', run (deser_response parse_custom ft v2 op) (c ++ rest') = Ok (r, rest')) /\
+               (forall q, sprefix q c -> exists e, run (deser_response parse_custom ft v2 op) q = Err e)) /\
+  (forall b, run (deser_extensions flags) b <> Err EOutOfFuel) /\
+  (forall b, run (deser_response parse_custom ft v2 op) b <> Err EOutOfFuel).
+Proof. exact body_decoders_local. Qed.
+
+(* C08_chunking composed with the decoders (was an argument in the docs): whatever the chunking and the
+   offered buffers, the reader stands behind exactly the 9 + length bytes of an accepted frame, the
+   pipeline's answer on the concatenated stream depends on those bytes only, is not a header-stage error
+   and, when it accepts, carries that header; a refusal by the chunked reader is the pipeline's refusal *)
+Theorem C08_chunked_decode : forall decompress ft v2 cmp offers cs,
+  no_eof cs ->
+  match read_frame_chunked offers cs with
+  | Ok ((h, body), cs') =>
+    let n := (9 + N.to_nat (h_length h))%nat in
+    concat cs = firstn n (concat cs) ++ concat cs' /\
+    (forall tail, decode decompress ft v2 cmp (firstn n (concat cs) ++ tail) = decode decompress ft v2 cmp (concat cs)) /\
+    (forall st e, fst (decode decompress ft v2 cmp (concat cs)) = OErr st e -> st <> StHeader) /\
+    (forall f, fst (decode decompress ft v2 cmp (concat cs)) = ODone f -> d_header f = h)
+  | Err e => fst (decode decompress ft v2 cmp (concat cs)) = OErr StHeader e
+  end.
+Proof. exact chunked_decode. Qed.
+
+(* the Boolean predicates the driver evaluates on the implementation's measurements ARE the bounds
+   (definitional reflections, listed so that the driver's verdict rests on a statement, not on Examples),
+   and the allocation bound is monotone in the input length *)
+Theorem C08_predicates_spec :
+  (forall len m, largest_in_proportion len m = true <-> m <= alloc_bound len) /\
+  (forall len m, total_in_proportion len m = true <-> m <= 2 * alloc_bound len) /\
+  (forall c h, stack_in_bound c h = true <-> h <= stack_bound c) /\
+  (forall o, is_rejected o = true <-> exists st e, o = OErr st e) /\
+  (forall a b, a <= b -> alloc_bound a <= alloc_bound b).
+Proof. exact predicates_spec. Qed.
+
+(* corollary of C08_alloc: the model's own cost always passes the predicates, so a `viol alloc` can only
+   come from what the implementation measured *)
+Theorem C08_model_passes_predicates : forall decompress R,
+  1 <= R -> (forall b d, decompress b = Some d -> lenN d <= R * lenN b) ->
+  forall ft v2 cmp stream,
+  let c := snd (decode decompress ft v2 cmp stream) in
+  largest_in_proportion (R * lenN stream) (c_alloc c) = true /\
+  total_in_proportion (R * lenN stream) (c_alloc c) = true /\
+  stack_in_bound c (stack_bound c) = true.
+Proof. exact model_passes_predicates. Qed.
 
 (* ---- non-vacuity ------------------------------------------------------------------------------ *)
 (* a RESULT/Rows frame with tracing and a warning: global table spec, columns
@@ -275,6 +348,18 @@ Proof.
   split; [vm_compute; repeat constructor; discriminate|].
   repeat split; vm_compute; reflexivity.
 Qed.
+(* the example stream as a connection: both frames in order, then the end of the stream; the reader's
+   position and the independence of the tail for the example frame (125 bytes) *)
+Example C08_ex_stream :
+  decode_stream (fun b => Some b) ex_ft true false 2 ex_stream
+    = [ODone ex_frame; ODone (mkFrame (mkHeader 132 0 1 2 0) (mkExt None [] None) RReady)] /\
+  decode_stream (fun b => Some b) ex_ft true false 5 ex_stream
+    = [ODone ex_frame; ODone (mkFrame (mkHeader 132 0 1 2 0) (mkExt None [] None) RReady); OErr StHeader EHeaderIo] /\
+  decode_stream (fun b => Some b) ex_ft true false 3 [4; 0; 0; 1; 2; 0; 0; 0; 0; 7] = [OErr StHeader EFrameFromClient] /\
+  fst (read_frame ex_stream) = Ok ((d_header ex_frame, enc_body ex_ft ex_frame), [132; 0; 0; 1; 2; 0; 0; 0; 0]) /\
+  (9 + N.to_nat (h_length (d_header ex_frame)) = 125)%nat /\
+  fst (decode (fun b => Some b) ex_ft true false (firstn 125 ex_stream ++ [1; 2; 3])) = ODone ex_frame.
+Proof. repeat split; vm_compute; reflexivity. Qed.
 Example C08_ex_tablet :
   wf_tablet (-5) 1000 [([1; 2; 3; 4; 5; 6; 7; 8; 9; 10; 11; 12; 13; 14; 15; 16], 3)] /\
   tablet_payload (enc_tablet (-5) 1000 [([1; 2; 3; 4; 5; 6; 7; 8; 9; 10; 11; 12; 13; 14; 15; 16], 3)])
@@ -353,3 +438,9 @@ Print Assumptions C08_chunking.
 Print Assumptions C08_tablet_roundtrip.
 Print Assumptions C08_cached_rows_roundtrip.
 Print Assumptions C08_typed_cell_roundtrip.
+Print Assumptions C08_frame_local.
+Print Assumptions C08_stream.
+Print Assumptions C08_body_local.
+Print Assumptions C08_chunked_decode.
+Print Assumptions C08_predicates_spec.
+Print Assumptions C08_model_passes_predicates.
